@@ -711,17 +711,18 @@ def Circ.fireF (c : Circ) (f : Faults) (cal : Val → Option Bool) (i : Nat) : O
   | some (c', r) => some (c', .res r)
   | none => none
 
-/-- the beginning of the stop on a failing storage; the flag: an exception leaves `run_forever` before the
-    clean-up — no (further) save, no stop time, NO `_stop_sblocks` (no block gets its `stop()`) -/
-def Circ.stopBeginF (c : Circ) (f : Faults) (t : Time) : Circ × Bool :=
-  if c.phase != .running && c.phase != .aborted && c.phase != .failed then (c, false) else
-  if !c.startOk then (c.stopBegin t, false) else
-  match saveAllF f c.store c.blocks with
-  | (s, true) => ({ c with now := t, phase := .stopped, store := s }, true)
-  | (s, false) =>
-    if f.write then ({ c with now := t, phase := .stopped, store := s }, true)      -- the stop-time write raises
-    else ({ c with now := t, phase := if c.phase == .failed then .stoppingF else .stopping,
-                   store := s.set stopKey (.ts t) }, false)
+/-- the beginning of the stop on a failing storage (with the repair
+    `patches/C08-storage-fault-at-stop-skips-cleanup.diff`: the save-and-stamp section of `run_forever` is inside a
+    `try` whose handler only logs): the first save that lets an exception out ends the section — the remaining blocks
+    are not saved, no stop time is written; a failing stop-time write leaves the saves without a (new) stop time;
+    either way the clean-up proceeds as always -/
+def Circ.stopBeginF (c : Circ) (f : Faults) (t : Time) : Circ :=
+  if c.phase != .running && c.phase != .aborted && c.phase != .failed then c else
+  if !c.startOk then c.stopBegin t else
+  { c with now := t, phase := if c.phase == .failed then .stoppingF else .stopping,
+           store := match saveAllF f c.store c.blocks with
+             | (s, true) => s
+             | (s, false) => if f.write then s else s.set stopKey (.ts t) }
 
 /-- does `_check_persistent_data` raise?  (read of the stop time, `keys()`, the first `del` of the purge) -/
 def checkRaises (f : Faults) (s : Storage) (bs : List Blk) : Bool :=
